@@ -898,14 +898,48 @@ package formula
 //@ spec strictEq(a any, b any) bool := (isNullAny(a) && isNullAny(b)) || (isbool(a) && isbool(b) && bval(a) == bval(b)) || (isstr(a) && isstr(b) && sval(a) == sval(b)) || (num(a) && num(b) && dcmp(nval(a), nval(b)) == 0)
 //@ spec sameKind(a any, b any) bool := (isNullAny(a) && isNullAny(b)) || (isbool(a) && isbool(b)) || (isstr(a) && isstr(b)) || (num(a) && num(b))
 
-//@ func (*Runner).valueEqualTo
+//@ func checkComparable
+//@   tags [C03,C05]
+//@   panics never
+//@   ensures[C03] result == nil ==> comparableAny(v1) && comparableAny(v2)
+//@   ensures[C05] comparableAny(v1) && comparableAny(v2) ==> result == nil
+
+//@ func (*Runner).resolveEqualsEqualsBinaryExpression
 //@   tags [C05,C03]
 //@   requires wfv(v1) && wfv(v2)
+//@   panics never
+//@   ensures[C03] result1 != nil ==> result0 == nil
+//@   ensures[C05] kind4(v1) && kind4(v2) && sameKind(v1, v2) ==> result1 == nil && result0 == mkbool(strictEq(v1, v2))
+
+//@ func (*Runner).resolveNotEqualsBinaryExpression
+//@   tags [C05,C03]
+//@   requires wfv(v1) && wfv(v2)
+//@   panics never
+//@   ensures[C03] result1 != nil ==> result0 == nil
+//@   ensures[C05] kind4(v1) && kind4(v2) && sameKind(v1, v2) ==> result1 == nil && result0 == mkbool(!strictEq(v1, v2))
+
+//@ func (*Runner).resolveEqualsEqualsEqualsBinaryExpression
+//@   tags [C05,C03]
+//@   requires wfv(v1) && wfv(v2)
+//@   panics never
+//@   ensures[C03] result1 != nil ==> result0 == nil
+//@   ensures[C05] kind4(v1) && kind4(v2) ==> result1 == nil && result0 == mkbool(strictEq(v1, v2))
+
+//@ func (*Runner).resolveNotEqualsEqualsBinaryExpression
+//@   tags [C05,C03]
+//@   requires wfv(v1) && wfv(v2)
+//@   panics never
+//@   ensures[C03] result1 != nil ==> result0 == nil
+//@   ensures[C05] kind4(v1) && kind4(v2) ==> result1 == nil && result0 == mkbool(!strictEq(v1, v2))
+
+//@ func (*Runner).valueEqualTo
+//@   tags [C05,C03]
+//@   requires wfv(v1) && wfv(v2) && comparableAny(v1) && comparableAny(v2)
 //@   panics never
 //@   ensures[C05] kind4(v1) && kind4(v2) ==> result == strictEq(v1, v2)
 
 //@ func (*Runner).valueLikeEqualTo
 //@   tags [C05,C03]
-//@   requires wfv(v1) && wfv(v2)
+//@   requires wfv(v1) && wfv(v2) && comparableAny(v1) && comparableAny(v2)
 //@   panics never
 //@   ensures[C05] kind4(v1) && kind4(v2) && sameKind(v1, v2) ==> result == strictEq(v1, v2)
